@@ -88,11 +88,11 @@ package fsnotify
 //@   let isRec = enableRecurse && filepath.Base(filepath.Clean(path)) == "..."
 //@   let p = ite(isRec, filepath.Dir(filepath.Clean(path)), filepath.Clean(path))
 //@   let rootRec = old(w.wd)[old(w.path)[p]].recurse
-//@   ensures err != nil ==> w.wd == old(w.wd) && w.path == old(w.path)                           [C04] "a failed Remove leaves the set untouched"
-//@   ensures !has(old(w.path), p) ==> err != nil && errIs(err, ErrNonExistentWatch)              [C04 C07 C09] "Remove of a path not in the list fails with ErrNonExistentWatch"
-//@   ensures errIs(err, ErrNonExistentWatch) ==> !has(old(w.path), p)                            [C04]
+//@   ensures err != nil ==> w.wd == old(w.wd) && w.path == old(w.path)                           [C01 C02 C04 C08 C09 C12] "a failed Remove leaves the set untouched"
+//@   ensures !has(old(w.path), p) ==> err != nil && errIs(err, ErrNonExistentWatch)              [C01 C02 C04 C07 C08 C09 C12] "Remove of a path not in the list fails with ErrNonExistentWatch"
+//@   ensures errIs(err, ErrNonExistentWatch) ==> !has(old(w.path), p)                            [C01 C02 C04 C08 C09 C12]
 //@   ensures modeA && has(old(w.path), p) ==> err == nil && len(wds) == 1 && wds[0] == old(w.path)[p] &&
-//@             w.path == del(old(w.path), p) && w.wd == del(old(w.wd), old(w.path)[p])             [C04 C09 C12] "exactly that entry leaves both tables"
+//@             w.path == del(old(w.path), p) && w.wd == del(old(w.wd), old(w.path)[p])             [C01 C02 C04 C08 C09 C12] "exactly that entry leaves both tables"
 //@   ensures modeB && err == nil ==> forall(q, string, has(w.path, q) <==> (has(old(w.path), q) && q != p && !(rootRec && strings.HasPrefix(q, p + "/"))))     [C19] "removing a recursive watch removes exactly its own tree from the list, and nothing else"
 //@   ensures modeB && err == nil ==> forall(k, uint32, has(w.wd, k) <==> (has(old(w.wd), k) && old(w.wd)[k].path != p && !(rootRec && strings.HasPrefix(old(w.wd)[k].path, p + "/"))))   [C19] "and exactly the watches of that tree from the descriptor table"
 //@   ensures modeB && err == nil ==> forall(q, string, has(w.path, q) ==> w.path[q] == old(w.path)[q]) && forall(k, uint32, has(w.wd, k) ==> w.wd[k] == old(w.wd)[k])   [C19] "the remaining watches are untouched"
@@ -123,12 +123,12 @@ package fsnotify
 //@   let W0 = old(w.watches.wd)
 //@   ensures TablesInv(w.watches)                                                                 [C01 C02 C04 C07 C08 C09 C12]
 //@   ensures modeA ==> KInv(w.watches)                                                            [C12]
-//@   ensures !has(P0, p) ==> errIs(err, ErrNonExistentWatch) && w.watches.wd == W0 && w.watches.path == P0   [C04 C07 C09] "Remove of an unlisted path: ErrNonExistentWatch, nothing changes"
-//@   ensures errIs(err, ErrNonExistentWatch) ==> !has(P0, p)                                      [C04 C10]
-//@   ensures modeA && has(P0, p) ==> w.watches.path == del(P0, p) && w.watches.wd == del(W0, P0[p])        [C04 C09 C12] "the entry leaves both tables"
+//@   ensures !has(P0, p) ==> errIs(err, ErrNonExistentWatch) && w.watches.wd == W0 && w.watches.path == P0   [C01 C02 C04 C07 C08 C09 C12] "Remove of an unlisted path: ErrNonExistentWatch, nothing changes"
+//@   ensures errIs(err, ErrNonExistentWatch) ==> !has(P0, p)                                      [C01 C02 C04 C08 C09 C10 C12]
+//@   ensures modeA && has(P0, p) ==> w.watches.path == del(P0, p) && w.watches.wd == del(W0, P0[p])        [C01 C02 C04 C08 C09 C12] "the entry leaves both tables"
 //@   ensures modeB && err == nil ==> forall(k, uint32, has(K, k) ==> has(w.watches.wd, k))       [C12 C19] "after a successful Remove of a recursive watch no kernel watch is left without a table entry: every descriptor of the tree was released"
 //@   ensures has(P0, p) && err == nil ==> !has(K, P0[p])                                          [C12] "the kernel watch of a removed entry is released"
-//@   ensures has(P0, p) ==> err == nil || closed(w.done)                                          [C04 C10] "removing a listed path only fails on a closed watcher"
+//@   ensures modeA && has(P0, p) ==> err == nil || closed(w.done)                                          [C01 C02 C04 C08 C09 C10 C12] "removing a listed path only fails on a closed watcher"
 //@   ensures held(shared.mu)
 //@   ensures subset(old(Pending), Pending) && forall(k, uint32, !(has(K, k) && has(Pending, k)))
 //@   loop 1 "for _, wd := range wds"
@@ -154,18 +154,18 @@ package fsnotify
 //@   ensures KInv(w.watches)                                                                        [C12]
 //@   ensures (err != nil) <==> (lastWd == -1)
 //@   ensures forall(r, *watch, old(allocated(r)) ==> r.path == old(r.path) && r.recurse == old(r.recurse) && (r.wd == old(r.wd) || (r.wd == k && !has(W0, k))))     [C19 C08] "registering never renames or re-types an existing watch, and re-numbers it only to a new descriptor the kernel returned"
-//@   ensures forall(j, uint32, has(w.watches.wd, j) && has(W0, j) ==> w.watches.wd[j] == W0[j])     [C19 C04] "a descriptor that stays listed keeps its watch"
-//@   ensures err != nil ==> w.watches.wd == W0 && w.watches.path == P0                              [C04] "a failed Add leaves the set untouched"
+//@   ensures forall(j, uint32, has(w.watches.wd, j) && has(W0, j) ==> w.watches.wd[j] == W0[j])     [C01 C02 C04 C08 C09 C12 C19] "a descriptor that stays listed keeps its watch"
+//@   ensures err != nil ==> w.watches.wd == W0 && w.watches.path == P0                              [C01 C02 C04 C08 C09 C12] "a failed Add leaves the set untouched"
 //@   ensures err == nil && has(W0, k) && (!has(P0, path) || P0[path] == k) ==>
-//@             w.watches.wd == W0 && w.watches.path == P0                                           [C04 C08] "adding a path whose file is already watched changes nothing (the first spelling stays)"
+//@             w.watches.wd == W0 && w.watches.path == P0                                           [C01 C02 C04 C08 C09 C12] "adding a path whose file is already watched changes nothing (the first spelling stays)"
 //@   ensures err == nil && has(W0, k) && has(P0, path) && P0[path] != k ==>
-//@             w.watches.path == del(P0, path) && w.watches.wd == del(W0, P0[path]) && !has(K, P0[path])     [C04 C12] "a listed path that now names another watched file: its entry goes and the old kernel watch is released"
+//@             w.watches.path == del(P0, path) && w.watches.wd == del(W0, P0[path]) && !has(K, P0[path])     [C01 C02 C04 C08 C09 C12] "a listed path that now names another watched file: its entry goes and the old kernel watch is released"
 //@   ensures err == nil && !has(W0, k) && !has(P0, path) ==>
 //@             w.watches.path == set(P0, path, k) && has(w.watches.wd, k) && fresh(w.watches.wd[k]) &&
 //@             forall(j, uint32, j != k ==> (has(w.watches.wd, j) <==> has(W0, j)) && w.watches.wd[j] == W0[j]) &&
-//@             w.watches.wd[k].path == path && w.watches.wd[k].recurse == recurse                   [C04 C08] "a new file under a new path: exactly one new entry, named as given"
+//@             w.watches.wd[k].path == path && w.watches.wd[k].recurse == recurse                   [C01 C02 C04 C08 C09 C12] "a new file under a new path: exactly one new entry, named as given"
 //@   ensures err == nil && !has(W0, k) && has(P0, path) ==>
-//@             w.watches.path == set(P0, path, k) && w.watches.wd == set(del(W0, P0[path]), k, W0[P0[path]]) && !has(K, P0[path])   [C04 C09 C12] "a listed path that now names a new file: its watch moves there and the old kernel watch is released"
+//@             w.watches.path == set(P0, path, k) && w.watches.wd == set(del(W0, P0[path]), k, W0[P0[path]]) && !has(K, P0[path])   [C01 C02 C04 C08 C09 C12] "a listed path that now names a new file: its watch moves there and the old kernel watch is released"
 
 //@ func (w *inotify) AddWith(path string, opts ...addOpt) (err error)
 //@   requires !token(sawOpen)
@@ -176,9 +176,9 @@ package fsnotify
 //@   let p = filepath.Clean(path)
 //@   ensures nolocks()                                                                              [C05 C07]
 //@   ensures old(closed(w.done)) ==> err == ErrClosed && !didLock(shared.mu)                        [C06] "after Close, Add fails with ErrClosed"
-//@   ensures modeA && didLock(shared.mu) && err == nil ==> Watched(w, filepath.Clean(path))         [C04 C01] "a successful Add leaves the file watched: listed under the cleaned argument, or already watched under the name it was first added as"
+//@   ensures modeA && didLock(shared.mu) && err == nil ==> Watched(w, filepath.Clean(path))         [C01 C02 C04 C08 C09 C12] "a successful Add leaves the file watched: listed under the cleaned argument, or already watched under the name it was first added as"
 //@   atcall inotify.register: arg_flags == requestInotify(with.op, with.noFollow)                   [C01 C15] "the native flags requested are exactly those needed for the requested operations"
-//@   atcall inotify.register: modeA ==> arg_path == p && !arg_recurse                               [C04 C08] "the watch is registered under the cleaned Add argument"
+//@   atcall inotify.register: modeA ==> arg_path == p && !arg_recurse                               [C01 C02 C04 C08 C09 C12] "the watch is registered under the cleaned Add argument"
 //@   atcall inotify.register: modeB ==> arg_recurse == incallback() && arg_flags == requestInotify(with.op, with.noFollow)     [C19] "every directory found by the walk of a recursive Add gets a recursive watch with the requested flags; a plain Add gets a plain one"
 //@   callback filepath.WalkDir: held(shared.mu) && !held(inotify.cookiesMu) && Wf(w) && TablesInv(w.watches) && KInv(w.watches) && token(sawOpen)     [C19 C07] "every directory of the walk is registered under the same lock, and the tables stay consistent from one to the next"
 //@   atcall filepath.WalkDir: modeB ==> held(shared.mu)                                             [C07 C19] "a recursive Add registers its whole tree inside one critical section, so that it is atomic towards Remove and the reader"
@@ -207,10 +207,10 @@ package fsnotify
 //@   let W1 = atLock(w.watches.wd)
 //@   ensures nolocks()                                                                              [C05 C07]
 //@   ensures old(closed(w.done)) ==> err == nil && !didLock(shared.mu)                              [C06] "after Close, Remove returns nil"
-//@   ensures didLock(shared.mu) ==> (errIs(err, ErrNonExistentWatch) <==> !has(P1, p))              [C04 C07 C09] "Remove fails with ErrNonExistentWatch exactly for a path that is not listed (looked up after cleaning)"
-//@   ensures didLock(shared.mu) && !has(P1, p) ==> atUnlock(w.watches.path) == P1 && atUnlock(w.watches.wd) == W1     [C04] "a failed Remove leaves the set untouched"
-//@   ensures didLock(shared.mu) && has(P1, p) ==> atUnlock(w.watches.path) == del(P1, p) && atUnlock(w.watches.wd) == del(W1, P1[p])   [C04 C09 C12] "Remove of a listed path removes exactly that entry"
-//@   ensures didLock(shared.mu) && has(P1, p) ==> err == nil || closed(w.done)                      [C04 C10]
+//@   ensures didLock(shared.mu) ==> (errIs(err, ErrNonExistentWatch) <==> !has(P1, p))              [C01 C02 C04 C07 C08 C09 C12] "Remove fails with ErrNonExistentWatch exactly for a path that is not listed (looked up after cleaning)"
+//@   ensures didLock(shared.mu) && !has(P1, p) ==> atUnlock(w.watches.path) == P1 && atUnlock(w.watches.wd) == W1     [C01 C02 C04 C08 C09 C12] "a failed Remove leaves the set untouched"
+//@   ensures didLock(shared.mu) && has(P1, p) ==> atUnlock(w.watches.path) == del(P1, p) && atUnlock(w.watches.wd) == del(W1, P1[p])   [C01 C02 C04 C08 C09 C12] "Remove of a listed path removes exactly that entry"
+//@   ensures didLock(shared.mu) && has(P1, p) ==> err == nil || closed(w.done)                      [C01 C02 C04 C08 C09 C10 C12]
 
 //@ func (w *inotify) WatchList() (l []string)
 //@   local entries []string
@@ -218,10 +218,10 @@ package fsnotify
 //@   let P1 = atLock(w.watches.path)
 //@   ensures nolocks()                                                                              [C05 C07]
 //@   ensures old(closed(w.done)) ==> len(l) == 0 && !didLock(shared.mu)                             [C06] "after Close, WatchList returns nil"
-//@   ensures didLock(shared.mu) ==> forall(i, int, 0 <= i && i < len(l) ==> has(P1, l[i]))          [C04 C07] "WatchList never shows a path that is not listed"
-//@   ensures didLock(shared.mu) ==> forall(p, string, has(P1, p) ==> exists(i, int, 0 <= i && i < len(l) && l[i] == p))    [C04] "every listed path is shown"
-//@   ensures didLock(shared.mu) ==> forall(i, int, forall(j, int, 0 <= i && i < j && j < len(l) ==> l[i] != l[j]))         [C04 C07] "WatchList never shows a path twice"
-//@   ensures didLock(shared.mu) ==> atUnlock(w.watches.path) == P1 && atUnlock(w.watches.wd) == atLock(w.watches.wd)       [C04]
+//@   ensures didLock(shared.mu) ==> forall(i, int, 0 <= i && i < len(l) ==> has(P1, l[i]))          [C01 C02 C04 C07 C08 C09 C12] "WatchList never shows a path that is not listed"
+//@   ensures didLock(shared.mu) ==> forall(p, string, has(P1, p) ==> exists(i, int, 0 <= i && i < len(l) && l[i] == p))    [C01 C02 C04 C08 C09 C12] "every listed path is shown"
+//@   ensures didLock(shared.mu) ==> forall(i, int, forall(j, int, 0 <= i && i < j && j < len(l) ==> l[i] != l[j]))         [C01 C02 C04 C07 C08 C09 C12] "WatchList never shows a path twice"
+//@   ensures didLock(shared.mu) ==> atUnlock(w.watches.path) == P1 && atUnlock(w.watches.wd) == atLock(w.watches.wd)       [C01 C02 C04 C08 C09 C12]
 //@   loop 1 "for pathname := range w.watches.path"
 //@     invariant held(shared.mu) && w.watches.path == atLock(w.watches.path) && w.watches.wd == atLock(w.watches.wd)
 //@     invariant forall(i, int, 0 <= i && i < len(entries) ==> has(visited, entries[i]) && has(w.watches.path, entries[i]))
@@ -260,8 +260,8 @@ package fsnotify
 //@             !(mask & unix.IN_DELETE_SELF != 0 && has(P1, filepath.Dir(wpath))) ==> ev.Op == specOpInotify(mask) && ev.Name == nm   [C01 C08] "every other notification for a live watch is translated, not dropped"
 //@   ensures modeA && live && ok && mask & (unix.IN_IGNORED | unix.IN_UNMOUNT) == 0 && mask & unix.IN_DELETE_SELF != 0 && ev.Op == 0 ==>
 //@             kparentWatched(wd)                                                                         [C01 C09] "a suppressed IN_DELETE_SELF is one the watched parent directory reports"
-//@   ensures modeA && live && mask & gone == 0 ==> atUnlock(w.watches.wd) == W1 && atUnlock(w.watches.path) == P1     [C09 C04] "other notifications (e.g. the IN_ATTRIB of an unlink with an open descriptor) keep the watch"
-//@   ensures modeA && live && mask & gone != 0 ==> atUnlock(w.watches.wd) == del(W1, wd) && atUnlock(w.watches.path) == del(P1, wpath)   [C09 C12 C04 C02] "a watch whose path is deleted or renamed leaves both tables"
+//@   ensures modeA && live && mask & gone == 0 ==> atUnlock(w.watches.wd) == W1 && atUnlock(w.watches.path) == P1     [C01 C02 C04 C08 C09 C12] "other notifications (e.g. the IN_ATTRIB of an unlink with an open descriptor) keep the watch"
+//@   ensures modeA && live && mask & gone != 0 ==> atUnlock(w.watches.wd) == del(W1, wd) && atUnlock(w.watches.path) == del(P1, wpath)   [C01 C02 C04 C08 C09 C12] "a watch whose path is deleted or renamed leaves both tables"
 //@   ensures modeA && live && mask & gone != 0 ==> !has(K, wd) || closed(w.done)                          [C09 C12] "and its kernel watch is gone"
 //@   ensures hist(w.Errors) == old(hist(w.Errors)) || closed(w.done)                                      [C10] "handling a notification puts nothing on Errors"
 //@   ensures hist(w.Events) == old(hist(w.Events))                                                        [C03] "handleEvent itself sends no event"
@@ -371,36 +371,36 @@ package fsnotify
 //@   requires Wf(w) && nolocks() && !token(sawOpen)
 //@   ensures nolocks()                                                                              [C05 C07]
 //@   ensures old(closed(w.done)) ==> err == ErrClosed                                               [C06] "after Close, Add fails with ErrClosed"
-//@   ensures modeA && didLock(shared.mu) && err == nil ==> Watched(w, filepath.Clean(name))         [C04 C01] "a successful Add leaves the file watched: listed under the cleaned argument, or already watched under the name it was first added as"
+//@   ensures modeA && didLock(shared.mu) && err == nil ==> Watched(w, filepath.Clean(name))         [C01 C02 C04 C08 C09 C12] "a successful Add leaves the file watched: listed under the cleaned argument, or already watched under the name it was first added as"
 
 //@ func (w *Watcher) Add(path string) (err error)
 //@   mode modeA: !enableRecurse
 //@   requires w.b != nil && Wf(w.b) && nolocks() && !token(sawOpen)
 //@   ensures nolocks()                                                                              [C05]
 //@   ensures old(closed(w.b.done)) ==> err == ErrClosed                                             [C06]
-//@   ensures modeA && didLock(shared.mu) && err == nil ==> Watched(w.b, filepath.Clean(path))       [C04 C01]
+//@   ensures modeA && didLock(shared.mu) && err == nil ==> Watched(w.b, filepath.Clean(path))       [C01 C02 C04 C08 C09 C12]
 
 //@ func (w *Watcher) AddWith(path string, opts ...addOpt) (err error)
 //@   mode modeA: !enableRecurse
 //@   requires w.b != nil && Wf(w.b) && nolocks() && !token(sawOpen)
 //@   ensures nolocks()                                                                              [C05]
 //@   ensures old(closed(w.b.done)) ==> err == ErrClosed                                             [C06]
-//@   ensures modeA && didLock(shared.mu) && err == nil ==> Watched(w.b, filepath.Clean(path))       [C04 C01]
+//@   ensures modeA && didLock(shared.mu) && err == nil ==> Watched(w.b, filepath.Clean(path))       [C01 C02 C04 C08 C09 C12]
 
 //@ func (w *Watcher) Remove(path string) (err error)
 //@   mode modeA: !enableRecurse
 //@   requires w.b != nil && Wf(w.b) && nolocks() && !token(sawOpen)
 //@   ensures nolocks()                                                                              [C05]
 //@   ensures old(closed(w.b.done)) ==> err == nil                                                   [C06]
-//@   ensures didLock(shared.mu) ==> (errIs(err, ErrNonExistentWatch) <==> !has(atLock(w.b.watches.path), filepath.Clean(path)))     [C04 C07]
-//@   ensures didLock(shared.mu) && has(atLock(w.b.watches.path), filepath.Clean(path)) ==> atUnlock(w.b.watches.path) == del(atLock(w.b.watches.path), filepath.Clean(path))   [C04 C09]
+//@   ensures didLock(shared.mu) ==> (errIs(err, ErrNonExistentWatch) <==> !has(atLock(w.b.watches.path), filepath.Clean(path)))     [C01 C02 C04 C07 C08 C09 C12]
+//@   ensures didLock(shared.mu) && has(atLock(w.b.watches.path), filepath.Clean(path)) ==> atUnlock(w.b.watches.path) == del(atLock(w.b.watches.path), filepath.Clean(path))   [C01 C02 C04 C08 C09 C12]
 
 //@ func (w *Watcher) WatchList() (l []string)
 //@   requires w.b != nil && Wf(w.b) && nolocks()
 //@   ensures nolocks()                                                                              [C05]
 //@   ensures old(closed(w.b.done)) ==> len(l) == 0                                                  [C06]
-//@   ensures didLock(shared.mu) ==> forall(i, int, 0 <= i && i < len(l) ==> has(atLock(w.b.watches.path), l[i]))       [C04 C07]
-//@   ensures didLock(shared.mu) ==> forall(p, string, has(atLock(w.b.watches.path), p) ==> exists(i, int, 0 <= i && i < len(l) && l[i] == p))   [C04]
+//@   ensures didLock(shared.mu) ==> forall(i, int, 0 <= i && i < len(l) ==> has(atLock(w.b.watches.path), l[i]))       [C01 C02 C04 C07 C08 C09 C12]
+//@   ensures didLock(shared.mu) ==> forall(p, string, has(atLock(w.b.watches.path), p) ==> exists(i, int, 0 <= i && i < len(l) && l[i] == p))   [C01 C02 C04 C08 C09 C12]
 
 //@ func (w *Watcher) Close() (err error)
 //@   requires w.b != nil && Wf(w.b) && nolocks()
